@@ -68,10 +68,12 @@ theorem no_wa_of_token_false (u : St) (c : CInv u) (ht : u.token = false) (a : N
 /-- pointwise goal after a replaced thread: look the thread up, let `grind` do the case analysis -/
 macro "pw" : tactic =>
   `(tactic| (intro a x hx; simp only [set2, List.getElem?_set] at hx;
-             grind [Loc, Thread.setPc, Thread.asLeader, Thread.unlock, Out, Blank, holds]))
+             grind [Loc, Thread.setPc, Thread.asLeader, Thread.unlock, Thread.grouped, Thread.journalled, Out, Blank, holds,
+                    accept_pc, accept_acc, accept_kind, accept_gres, accept_jout, accept_pub]))
 macro "pwm" : tactic =>
   `(tactic| (intro a x b hx; simp only [set2, List.getElem?_set] at hx ⊢;
-             grind [Loc, Thread.setPc, Thread.asLeader, Thread.unlock, Out, Blank, holds]))
+             grind [Loc, Thread.setPc, Thread.asLeader, Thread.unlock, Thread.grouped, Thread.journalled, Out, Blank, holds,
+                    accept_pc, accept_acc, accept_kind, accept_gres, accept_jout, accept_pub]))
 
 theorem step_loc (s t : St) (h : Step s t) (c : CInv s) (ct : CInv t) (inv : PInv s) :
     ∀ (i : Nat) (w : Thread), t.ws[i]? = some w → Loc w := by
@@ -80,7 +82,7 @@ theorem step_loc (s t : St) (h : Step s t) (c : CInv s) (ct : CInv t) (inv : PIn
   | call i w hi hp => pw
   | retClosed i w hi hp hk hc => pw
   | retPerErr i w hi hp hk hc => pw
-  | lock i w hi hp hk ht =>
+  | lock i w g hi hp hk ht =>
     have nh := no_holder s c ht
     have nw := no_wa_of_token_false s c ht
     pw
@@ -91,19 +93,20 @@ theorem step_loc (s t : St) (h : Step s t) (c : CInv s) (ct : CInv t) (inv : PIn
   | hRelease i w hi hp hk => pw
   | flushOk j l m o lim hj hp => pw
   | flushFail j l m o hj hp => pw
-  | recvAccept i j w l m hj hi hp hm hl' hq hk hwm hsz => pw
+  | recvAccept i j w l m g hj hi hp hm hl' hq hk hwm hsz => pw
   | reply i j w l m o hj hi hp hq => pw
   | recvOverflow i j w l m hj hi hp hm hl' hq hk hwm hsz => pw
   | mergeDone j l m o hj hp => pw
   | journalOk j l m o hj hp => pw
   | journalFail j l m o hj hp => pw
   | apply j l m o hj hp => pw
-  | publish j l m o rot hj hp => cases rot <;> pw
+  | publish j l m o rot hj hp hrot => cases rot <;> pw
   | rotateOk j l m o hj hp => pw
   | rotateFail j l m o hj hp => pw
   | ack i j w l k m o r hj hi hp hq => pw
-  | handoff i j w l m r hj hi hp hq => pw
+  | handoff i j w l m r g hj hi hp hq hc => pw
   | release j l m r hj hp => pw
+  | releaseLost j l m r hj hp hc hr => exact absurd c.cfgH (by simp [hc])
 
 theorem step_holder_cur (s t : St) (h : Step s t) (c : CInv s) (ct : CInv t) (inv : PInv s) :
     ∀ (j : Nat) (w : Thread), t.ws[j]? = some w → 0 < holds w.pc → t.cur = some j := by
@@ -112,7 +115,7 @@ theorem step_holder_cur (s t : St) (h : Step s t) (c : CInv s) (ct : CInv t) (in
   | call i w hi hp => pw
   | retClosed i w hi hp hk hc => pw
   | retPerErr i w hi hp hk hc => pw
-  | lock i w hi hp hk ht =>
+  | lock i w g hi hp hk ht =>
     have nh := no_holder s c ht
     have nw := no_wa_of_token_false s c ht
     pw
@@ -125,18 +128,18 @@ theorem step_holder_cur (s t : St) (h : Step s t) (c : CInv s) (ct : CInv t) (in
     intro a x hx hh; have := nh a x hx; omega
   | flushOk j l m o lim hj hp => pw
   | flushFail j l m o hj hp => pw
-  | recvAccept i j w l m hj hi hp hm hl' hq hk hwm hsz => pw
+  | recvAccept i j w l m g hj hi hp hm hl' hq hk hwm hsz => pw
   | reply i j w l m o hj hi hp hq => pw
   | recvOverflow i j w l m hj hi hp hm hl' hq hk hwm hsz => pw
   | mergeDone j l m o hj hp => pw
   | journalOk j l m o hj hp => pw
   | journalFail j l m o hj hp => pw
   | apply j l m o hj hp => pw
-  | publish j l m o rot hj hp => cases rot <;> pw
+  | publish j l m o rot hj hp hrot => cases rot <;> pw
   | rotateOk j l m o hj hp => pw
   | rotateFail j l m o hj hp => pw
   | ack i j w l k m o r hj hi hp hq => pw
-  | handoff i j w l m r hj hi hp hq =>
+  | handoff i j w l m r g hj hi hp hq hc =>
     have hil := (List.getElem?_eq_some_iff.mp hi).1
     have hti : (set2 s.ws j (l.setPc (.returned r)) i w.asLeader)[i]? = some w.asLeader := by
       simp [set2, hil]
@@ -147,5 +150,6 @@ theorem step_holder_cur (s t : St) (h : Step s t) (c : CInv s) (ct : CInv t) (in
   | release j l m r hj hp =>
     have nh := no_holder _ ct rfl
     intro a x hx hh; have := nh a x hx; omega
+  | releaseLost j l m r hj hp hc hr => exact absurd c.cfgH (by simp [hc])
 
 end GoLevel.WP
